@@ -1,36 +1,44 @@
 (* C01 — compiled bytecode computes what the datapath program source says.
-   PARTIAL.  The full statement is [C01_full_statement] below (source text in, observations of
-   every invocation out, on both sides).  Proved, for ALL programs, register states and inputs:
-     C01_expression_simulation  the instructions lowered from a well-typed expression outside the
-                                clobber class, run on the libccp register machine, compute what
-                                the source semantics says: same value, same variable updates,
-                                same fault code at the same point;
-     C01_events_simulation      the same for a whole event list: condition blocks with the
-                                event-flag retargeting, statement lists, the datapath's event
-                                loop (first true event ends the invocation unless fallthrough);
-     C01_operators_agree        instruction semantics = operator semantics incl. every fault rule;
-     C01_clobbers_refuted       the statement is false without the clobber hypothesis (the
-                                recorded finding), with its witness;
-   plus kernel-evaluated non-vacuity witnesses of the full statement.
-   Missing for the full statement: the invocation wrapper (flag reset, window/rate settings,
-   report and reset of volatile variables, program switch) and the decode of the install message
-   into the instruction list are not yet connected to C01_events_simulation, and the side
-   conditions on the final scope (scf_ok, scf_impl) are not yet derived from wt_prog.  The check's
-   verdict therefore also rests on the correspondence runs: (a) portus' compiler against the
-   compiler model (byte-identical images), (b) the libccp model against the compiled C code,
-   (c) the source semantics against what the real libccp does with the bytes portus produced.
-   Definitions: Portus.Lang.{SrcSem,Typing,EndToEnd,SimExpr,SimProg}, Portus.Dp.Machine. *)
-From Portus Require Import EndToEnd SimProg.
+   PROVED end to end on the model: [C01_compile_correct].  For every source text in the property's
+   quantifier (accepted by the compiler and by the datapath, well typed under the documented
+   discipline, no operand overwritten before use, no legacy-infinity initial value) and every
+   finite sequence of measurement vectors of 64-bit values: the image portus' compiler model
+   emits, wrapped in the install message, read by the libccp model, selected by a change-program
+   message and run, yields invocation by invocation the same fault code, window and rate settings,
+   report contents and variable values as the source semantics.
+   The layers are stated separately as well:
+     C01_expression_simulation, C01_events_simulation   (all register states, all inputs)
+     C01_operators_agree                                (instruction vs operator semantics)
+     C01_clobbers_refuted, C01_unbounded_inputs_refuted (each hypothesis is needed: witnesses)
+   plus kernel-evaluated non-vacuity witnesses.
+   What remains outside the theorem is the tie of the two models to the code, checked on every
+   run: (a) portus' compiler against the compiler model (byte-identical images), (b) the libccp
+   model against the compiled libccp C code, (c) the source semantics against what the real
+   libccp does with the bytes portus produced.
+   Definitions: Portus.Lang.{SrcSem,Typing,EndToEnd,Sim*,C01Final}, Portus.Dp.Machine. *)
+From Portus Require Import EndToEnd SimProg C01Final.
 
-(* For every source text in the property's quantifier (accepted by the compiler, well typed under
-   the documented discipline, no operand overwritten before use, no legacy-infinity initial
-   value) and every finite sequence of measurement vectors with monotone clock readings: the
-   image portus emits, installed and run on the reference datapath, yields invocation by
-   invocation the same fault code, window and rate settings, reports and variable values as the
-   source semantics. *)
+(* The property, at full strength. [in_c01_scope]: the text compiles, serializes, is accepted by
+   the datapath model, and the program is well typed, outside the clobber class and without a
+   legacy-infinity initial value.  [inputs_bounded]: every measurement is a 64-bit value.
+   [agrees]: machine_run (install + change-program + one ccp_invoke per input, observed through
+   the callbacks, the report message bytes and the scope's registers) equals src_run. *)
 Definition C01_full_statement : Prop :=
-  forall src ins, in_c01_scope src = true -> clock_monotone 1000 ins = true ->
-                  agrees src ins = Some true.
+  forall src ins, in_c01_scope src = true -> inputs_bounded ins -> agrees src ins = Some true.
+
+Theorem C01_compile_correct : C01_full_statement.
+Proof. exact compile_correct_end_to_end. Qed.
+Print Assumptions C01_compile_correct.
+
+(* the bound on the inputs is needed: the report message carries 64-bit fields *)
+Theorem C01_unbounded_inputs_refuted :
+  exists src ins, in_c01_scope src = true /\ agrees src ins = Some false.
+Proof.
+  exists (lit "(def (Report (x 0))) (when true (:= Report.x Ack.bytes_acked) (report))").
+  exists [(mkPrims 18446744073709551621 0 0 0 0 0 0 0 0 0 0 0 0 0 0 0, 2000)].
+  split; vm_compute; reflexivity.
+Qed.
+Print Assumptions C01_unbounded_inputs_refuted.
 
 (* ---------- the simulation theorems ----------
    scf is the scope when lowering has finished; [R scf cx s c]: every variable's register holds
